@@ -18,7 +18,7 @@ LEVEL = 'exploration'
 RULE = ('1-5 chatty tasks (independent, chains, fan-in) x backends {fork, spawn sampled; serial for logger records} x max_workers x '
         'per-task scripts: interleavings of logger.info/warning/error(token), print(token), print(token, flush=True), '
         'sys.stderr.write(token) without newline, print(token, file=stderr), explicit flush of both streams repeated 0-3 times, '
-        'whitespace-only prints, bursts of 120-2600 logger records, logger calls with lazily formatted unpicklable arguments, and tasks that raise after emitting; every token is unique (<task>:<stream>:<seq>). Gated variants (fork) let the schedule choose '
+        'whitespace-only prints, rows that start with whitespace, bursts of 120-2600 logger records, logger calls with lazily formatted unpicklable arguments, and tasks that raise after emitting; every token is unique (<task>:<stream>:<seq>). Gated variants (fork) let the schedule choose '
         'which task finishes in the last polling round; single-task runs are always included. Oracle: a handler attached to '
         'labtech.logger in the caller records (level, message); at the instant run_tasks returns every token must occur exactly '
         'once over all recorded messages, on the expected stream/level (Captured STDOUT -> INFO, Captured STDERR -> ERROR, logger '
@@ -157,6 +157,9 @@ def check(spec: dict) -> core.CaseResult:
                            summary={'records_at_return': at_return[:12]})
 
 
+INDENTS = st.sampled_from(['', '', '  ', '\t', ' \t ', '        '])      # rows of a table, a traceback's "  File ..." lines
+
+
 @st.composite
 def chat_spec(draw, backend: str, gated: bool):
     n = draw(st.integers(1, 3 if backend == 'spawn' else 5))
@@ -172,13 +175,13 @@ def chat_spec(draw, backend: str, gated: bool):
             elif kind == 'log':
                 script.append(['log', draw(st.sampled_from(['info', 'warning', 'error'])), [name, 'log', s]])
             elif kind == 'print':
-                script.append(['print', [name, 'out', s], False])
+                script.append(['print', [name, 'out', s], False, draw(INDENTS)])
             elif kind == 'printf':
-                script.append(['print', [name, 'out', s], True])
+                script.append(['print', [name, 'out', s], True, draw(INDENTS)])
             elif kind == 'err':
                 script.append(['err', [name, 'err', s]])
             elif kind == 'errln':
-                script.append(['errln', [name, 'err', s]])
+                script.append(['errln', [name, 'err', s], draw(INDENTS)])
             elif kind == 'flush':
                 script.append(['flush'])
             else:
